@@ -178,3 +178,23 @@ def c07_generate_fresh(ctx, dim):
     ref = darsia.Grid(tuple(shape), [d / n for d, n in zip([1.5, 2.0, 0.5][:dim], shape)])
     for k, v in arrays(ref).items():
         ctx.ensure(f"grid generated after the first one was edited: {k} is the grid's own", k in a2 and a2[k].shape == v.shape and bool(np.array_equal(a2[k], v)))
+
+
+@ob("C07.generate_float", kind="B", cases=[dict(dim=1), dict(dim=2), dict(dim=3)], funcs=FUNCS, samples=(1, 1),
+    cite="image-derived grids for random images (the grid of an image has the image's voxel counts)",
+    note="bounded float sweep: generate_grid over extents 1..64 (1-D), 1..12 (2-D / 3-D) and physical sizes whose quotient dimension / voxel_size is not exact in floating point "
+         "(0.92, 0.98, 0.1, 0.3, 0.7, 1.0, 1.1, 2.9, 1e-3); the proof C07.generate is over the reals and cannot see a count re-derived by ceil / round of a float quotient (after seed C07_h)")
+def c07_generate_float(ctx, dim):
+    sizes = (0.92, 0.98, 0.1, 0.3, 0.7, 1.0, 1.1, 2.9, 1e-3)
+    exts = range(1, 65) if dim == 1 else range(1, 13)
+    bad = []
+    for n in exts:
+        for d in sizes:
+            shape = (n,) if dim == 1 else ((n, 7) if dim == 2 else (3, n, 2))
+            dims = [d] * dim if dim == 1 else ([d, 0.98] if dim == 2 else [0.7, d, 1.1])
+            img = darsia.Image(np.zeros(shape), space_dim=dim, scalar=True, dimensions=dims)
+            g = darsia.generate_grid(img)
+            ctx.tick()
+            if tuple(int(x) for x in g.shape) != tuple(shape) or not np.allclose(np.asarray(g.voxel_size, dtype=float), np.asarray(img.voxel_size, dtype=float), rtol=1e-12, atol=0):
+                bad.append((shape, dims, tuple(g.shape)))
+    ctx.ensure(f"grid shape == image voxel counts and grid voxel size == image voxel size for every (extent, size) of the sweep; first failures: {bad[:3]}", not bad)
